@@ -199,3 +199,6 @@ PROPS["C18"] = {
 
 PROPS["C10"]["components"].append(CircuitSeq("C10", None, 150, 4000, suite="gowrap"))
 PROPS["C10"]["rule"] += " gowrap: the Circuit.Go scenarios of C18, judged for panics (value identity at Go's caller while the context has not ended)."
+
+PROPS["C10"]["components"].append(PanicMeta(1500, 40000))
+PROPS["C10"]["rule"] += " panic-meta: every generated history in which a run function panicked is re-run on the real code with that call replaced by the passage of the same time; all later answers must be identical (metamorphic form of 'as if the panicking call had not happened')."
